@@ -125,8 +125,9 @@ class Folder:
         f = ops.get(type(n.op))
         if f is None:
             raise NotConstant("binop")
-        if isinstance(a, int | float) and isinstance(b, int | float) and not isinstance(n.op, ast.Add | ast.Sub | ast.Mult | ast.Mod | ast.FloorDiv):
-            raise NotConstant("binop")
+        if isinstance(a, float) or isinstance(b, float):
+            if not isinstance(n.op, ast.Add | ast.Sub | ast.Mult | ast.Mod | ast.FloorDiv):
+                raise NotConstant("binop")
         return f()
 
     def f_UnaryOp(self, n):
